@@ -794,8 +794,16 @@ def _is_nl_to_cr(e: ast.AST, consts: Optional[Dict[str, ast.AST]] = None) -> Opt
             x = consts[x.id]
         return x
 
+    if isinstance(e, ast.BinOp) and isinstance(e.op, ast.Add) and isinstance(cv(e.right), ast.Constant) and cv(e.right).value == "\r":
+        # `"\r".join(<lines>) + "\r"`: decided by how the lines were cut
+        inner_ = e.left
+        if isinstance(inner_, ast.Call) and isinstance(inner_.func, ast.Attribute) and inner_.func.attr == "join" and len(inner_.args) == 1 and isinstance(inner_.args[0], ast.Call) and call_name(inner_.args[0]) == "splitlines":
+            return False  # str.splitlines also cuts at VT, FF, FS, GS, RS, NEL, LS, PS and CR: characters inside literals and remarks turn into CR
+        return None
     if not (isinstance(e, ast.Call) and isinstance(e.func, ast.Attribute)):
         return None
+    if e.func.attr == "join" and len(e.args) == 1 and isinstance(e.args[0], ast.Call) and call_name(e.args[0]) == "splitlines" and not e.args[0].args and not e.args[0].keywords:
+        return False  # (as above; a trailing LF is dropped as well)
     if e.func.attr == "replace" and len(e.args) == 2:
         a0, a1 = cv(e.args[0]), cv(e.args[1])
         if isinstance(a0, ast.Constant) and isinstance(a1, ast.Constant):
